@@ -305,6 +305,7 @@ class MTask:
         self.fullname = f'{inst.ns}::{self.slug}' if inst.ns else self.slug
         self.params = {}        # name -> value received by run
         self.raw = {}           # name -> raw config value (before Path conversion)
+        self.defaulted = set()  # names whose value is the declared default OBJECT itself (left unset)
         self.inputs = []        # list of (key full name, label, target fullname or None, present)
         self.key = None
         self.value = None
@@ -351,7 +352,19 @@ def select_tasks(case, node):
 def default_of(p):
     """The declared default (a Path object when the declaration gives one)."""
     d = p['default']
+    if d.get('as_object'):
+        return instantiate(d['v'])
     return Path(d['v']) if d.get('as_path') else d['v']
+
+
+def elided_at_default(t, p, v):
+    """dont_persist_default_value: the value 'equals' the default.  Python ==; for a default OBJECT (no __eq__) that is
+    identity, i.e. the parameter was left unset."""
+    if not (p.get('dpdv') and 'default' in p):
+        return False
+    if p['default'].get('as_object'):
+        return p['name'] in t.defaulted
+    return py_eq(v, default_of(p))
 
 
 def py_eq(a, b):
@@ -369,6 +382,7 @@ def bind_params(t, data):
             v = data[key]
         elif 'default' in p:
             v = default_of(p)
+            t.defaulted.add(p['name'])
         else:
             raise ModelError('missing-parameter', f'{t.fullname}.{p["name"]}')
         dt = p.get('dtype')
@@ -506,7 +520,7 @@ def param_text(t):
         if p.get('ignore'):
             continue
         v = t.params[p['name']]
-        if p.get('dpdv') and 'default' in p and py_eq(v, default_of(p)):
+        if elided_at_default(t, p, v):
             continue
         if isinstance(v, Obj):
             r = v.repr()
@@ -577,7 +591,7 @@ def _cd(v):
 def _elided(t, pname):
     for p in t.spec['params']:
         if p['name'] == pname:
-            return bool(p.get('dpdv') and 'default' in p and py_eq(t.params[pname], default_of(p)))
+            return elided_at_default(t, p, t.params[pname])
     return False
 
 
